@@ -24,13 +24,16 @@ def plans_core(prop, tier, seed):
         dict(name="complete", consts=base_consts(Fn="LWW" if seed % 2 else "HASH", MaxE=4, MaxOps=5),
              max_scripts=600 if q else 6000, complete=True),
         dict(name="sim", consts=base_consts(NR=4, Writer0=[1, 2, 3, 1], Lid=["X"] * 4, Denied=[set()] * 4,
-                                            Fn="HASH" if seed % 2 else "LWW", MaxE=16, MaxOps=28, PCs={1, 2, 4}),
+                                            Fn="HASH" if seed % 2 else "LWW", MaxE=16, MaxOps=28, PCs={1, 2, 4},
+                                            Payloads={"p", "empty"}),
              simulate=(12 if q else 200, 28), mode="all", complete=True),
     ]
     # refused appends (identity switched to a writer the log's own controller denies) and rejected merges
     # (candidates by a denied writer) in the middle of histories: the log must stay sound afterwards
-    plans.append(dict(name="exhDeny", consts=base_consts(NR=3, Writer0=[1, 2, 3], Denied=[{2}, {1}, set()], Writers={2},
-                                                        MaxE=4, MaxOps=6 if q else 7),
+    # (verification concurrency 2: a merge of three or more new entries is verified in several batches)
+    plans.append(dict(name="exhDeny", concurrency=2,
+                      consts=base_consts(NR=3, Writer0=[1, 2, 3], Denied=[{2}, {1}, set()], Writers={2},
+                                         MaxE=4, MaxOps=6 if q else 7),
                       max_scripts=25000 if q else 400000))
     # replicas rebuilt from another replica's entries and heads (NewLog with options), then both sides grow
     plans.append(dict(name="exhFork", consts=base_consts(NR=3, Writer0=[1, 2, 1], MaxE=5 if q else 6, MaxOps=6 if q else 7,
@@ -41,6 +44,13 @@ def plans_core(prop, tier, seed):
                                                         Fn="HASH" if seed % 2 else "LWW", ForkOn={3},
                                                         LoadKinds={"entry", "json", "hash", "mh"}),
                       max_scripts=25000 if q else 300000))
+    if prop == "C05":
+        # under the link-sealing codec, with replicas read back from the store (their decoded entries carry no sealed
+        # form in memory): verification during a merge must not touch the entry objects another log holds
+        plans.append(dict(name="lk1load", codec="cbor+lk1",
+                          consts=base_consts(NR=2, Writer0=[1, 2], Lid=["X"] * 2, Denied=[set()] * 2, MaxE=4, MaxOps=5 if q else 6,
+                                             ForkOn={1, 2}, LoadKinds={"entry", "mh"}),
+                          max_scripts=20000 if q else 200000))
     if not q:
         plans.append(dict(name="exhLWW4", consts=base_consts(NR=4, Writer0=[1, 2, 3, 1], Lid=["X"] * 4,
                                                              Denied=[set()] * 4, MaxE=4, MaxOps=5)))
@@ -98,6 +108,11 @@ def plans_c06(prop, tier, seed):
         # access control: replica 2 denies writer 1, replica 3 denies everybody
         dict(name="acl", consts=base_consts(Denied=[set(), {1}, {1, 2}], MaxE=4, MaxOps=5 if q else 7)),
     ]
+    # a log with its own id built (NewLog with entries) on the genuinely signed entries of a log with another id, then
+    # extended: a clean replica merging from it admits the entries carrying its id only
+    plans.append(dict(name="crossfork", consts=base_consts(NR=3, Writer0=[1, 2, 1], Lid=["X", "Y", "X"], MaxE=4, MaxOps=6,
+                                                          ForkOn={1}, CrossFork=True),
+                      max_scripts=30000 if q else 300000))
     # every codec configuration: appended entries verify and merge
     for codec in ("cbor+lk1", "pb"):
         plans.append(dict(name="codec_" + codec.replace("+", "_"), codec=codec,
@@ -137,7 +152,7 @@ def plans_c17(prop, tier, seed):
              consts=base_consts(MaxE=4 if q else 5, MaxOps=6 if q else 8, PCs={1, 4}, PubOn={1}, Fn="HASH"),
              max_scripts=1500 if q else 30000),
         dict(name="crashSim", audit="c17", mode="all",
-             consts=base_consts(NR=3, MaxE=14, MaxOps=30, PCs={1, 2, 4, 8}, PubOn={1, 2, 3}),
+             consts=base_consts(NR=3, MaxE=14, MaxOps=30, PCs={1, 2, 4, 8}, PubOn={1, 2, 3}, Payloads={"p", "empty"}),
              simulate=(6 if q else 60, 30)),
     ]
 
